@@ -68,6 +68,8 @@ func role(e paths.Event, v ssa.Value) string {
 		return "the-map"
 	case *ssa.Global:
 		return "global:" + x.Name()
+	case *ssa.Function:
+		return "?" + canonName(x)
 	case *ssa.Slice:
 		// composite literal []T{a, b}: new [n]T with element stores, sliced whole
 		if al, ok := x.X.(*ssa.Alloc); ok && x.Low == nil && x.High == nil {
@@ -256,7 +258,7 @@ func callRole(e paths.Event, x *ssa.Call) string {
 		if b, ok := x.Call.Value.(*ssa.Builtin); ok {
 			name = b.Name()
 		} else if c := x.Call.StaticCallee(); c != nil {
-			name = c.Name()
+			name = canonName(c)
 			if c.Pkg != nil && c.Pkg.Pkg.Path() == "encoding/binary" && (name == "Uint32" || name == "Uint16" || name == "Uint64") {
 				bits := strings.TrimPrefix(name, "Uint")
 				name = "be" + bits
@@ -403,7 +405,7 @@ func c04PathsOpt(c *core.Ctx, fn *ssa.Function, inlineHelpers bool) ([]c04path, 
 			// unexported functions, and unexported methods called on the entry point's own receiver (fail / succeed helpers)
 			ownMethod := callee.Signature.Recv() != nil && fn.Signature.Recv() != nil && len(call.Call.Args) > 0 && len(fn.Params) > 0 && call.Call.Args[0] == ssa.Value(fn.Params[0]) && callee.Name() != "Name"
 			return callee.Pkg == fn.Pkg && callee.Object() != nil && !callee.Object().Exported() && (callee.Signature.Recv() == nil || ownMethod) && len(callee.Blocks) > 0 &&
-				callee.Name() != "splitWithUDHI" && callee.Name() != "encodeAndSplitGSM7Packed" && callee.Name() != "newBatchEncoder"
+				canonName(callee) != "splitWithUDHI" && canonName(callee) != "encodeAndSplitGSM7Packed" && canonName(callee) != "newBatchEncoder"
 		}
 	}
 	ps, err := paths.Enumerate(fn, cfg)
